@@ -79,6 +79,7 @@ class UnitSpec:
         self.opaque_ok = False
         self.stub_fns = []
         self.cflags = []
+        self.inst_flags = []
         self.tv = None
         self.native_differential = False
         self.native_drivers = []
@@ -132,6 +133,9 @@ def parse(u, path):
                 u.filter = rest
             elif kw == 'opaque':
                 u.opaque_ok = rest in ('yes', 'true', 'on')
+            elif kw == 'inst-flags':
+                # extra clang++ flags for the instantiation driver ($REPO = the repository root)
+                u.inst_flags += rest.split()
             elif kw == 'cflags':
                 u.cflags += rest.split()
             elif kw == 'include':
